@@ -376,7 +376,7 @@ func lowestCommonParent[V any, L nodeLeaf[V]](root nodeRef, prefix []byte) nodeR
 
 			for i := 255; i >= 0; i-- {
 				idx := n48.keys[i]
-				if idx == 0 || n48.children[i].tag == nodeKindLeaf {
+				if idx == 0 || n48.children[idx-1].tag == nodeKindLeaf {
 					continue
 				}
 				q = append(q, n48.children[idx-1])
